@@ -22,6 +22,8 @@ from common import Coverage, Driver, rng, shrink_list, violation
 # --------------------------------------------------------------------------- events
 IP_ALPHA = ["S1.0", "S1025.0", "N", "R0", "F1", "C", "X", "T", "D", "RC", "O0", "N+N@10"]
 # session establishment through the real code: genuine reconnects, reconnects against a replaying peer, old-session frames
+# IP blocks whose plaintext makes the HTTP layer raise, then replays of that block and of earlier ones
+IP_BAD = ["S1.0", "N", "NB0", "NB1", "NB2", "R0", "R1", "N+NB1@10"]
 SESS = {"ip": ["S1.0", "N", "RR", "RC", "R0", "O0", "D", "SX1.0"], "coap": ["S1.0", "N", "N4", "RR", "RC", "EPC", "EN", "ER0"]}
 # IP requests big enough for any size-dependent send path (64 KiB = 64 frames), cancelled at their first suspension point
 IP_BIG = ["SX65536.0", "S65536.0", "SX1.0", "S1.0", "N", "X"]
@@ -51,6 +53,8 @@ def parse_ev(t):
         return (t, 0, 0)
     if t.startswith("EL"):
         return ("EL", int(t[2:]), 0)
+    if t.startswith("NB"):
+        return ("NB", int(t[2:] or 0), 0)
     if t[0] in "WV":
         n, c, j = t[1:].split(".")
         return (t[0], (int(n), int(c)), int(j))
@@ -96,6 +100,10 @@ def MODEL_TOKEN(t, transport="ble"):
     does not touch the counters in the model: the datagram was accepted."""
     if t == "TB":
         return "T"
+    if t.startswith("NB"):
+        # IP: a genuine block the layer above raises on (NB0 malformed status line, NB1 a good EVENT followed by an
+        # EVENT with a non-UTF-8 body in one block, NB2 unknown message kind): decrypted, counted, fatal
+        return "NB"
     if t == "EPC":
         # CoAP: mDNS reports a new address/port.  _async_endpoint_changed tears the session down (reconnect_soon);
         # the pairing's next operation connects again: teardown + new pair-verify
@@ -584,8 +592,15 @@ class IpRun:
         self.cache = {}
         self.sessions = []
 
+        self.events_seen = []
+
+        async def connection_made(secure):
+            return None
+        owner = types.SimpleNamespace(name="c06", description=None, connection_made=connection_made,
+                                      event_received=self.events_seen.append)
+
         async def make():
-            conn = ipc.SecureHomeKitConnection(None, pairing_data(AccessoryIP="10.0.0.1", AccessoryPort=80))
+            conn = ipc.SecureHomeKitConnection(owner, pairing_data(AccessoryIP="10.0.0.1", AccessoryPort=80))
             conn._start_connector = lambda: None
             return conn
         t = self.loop.create_task(make())
@@ -657,13 +672,20 @@ class IpRun:
             settle(self.loop)
             self.new_session()
 
-    def frame(self, epoch, i, ahead=0):
+    def frame(self, epoch, i, ahead=0, bad=None):
         """The accessory's frame with nonce i.  [ahead] = frames glued in front of it in the same event: it is
         a response only if a request will still be pending when it is reached."""
         if (epoch, i) not in self.cache:
             body = f"{epoch}.{i}".encode()
             head = b"HTTP/1.1 200 OK" if self.reqs.pending() - ahead > 0 else b"EVENT/1.0 200 OK"
             pt = head + b"\r\nContent-Length: %d\r\n\r\n" % len(body) + body
+            if bad == 0:
+                pt = b"GARBAGE\r\n\r\n"                                        # HttpException: malformed status line
+            elif bad == 1:
+                good = b"EVENT/1.0 200 OK\r\nContent-Length: %d\r\n\r\n" % len(body) + body
+                pt = good + b"EVENT/1.0 200 OK\r\nContent-Length: 2\r\n\r\n\xff\xfe"   # UnicodeDecodeError in event_received
+            elif bad == 2:
+                pt = b"OTHER/1.0 200 OK\r\nContent-Length: 0\r\n\r\n"              # RuntimeError: unknown http type
             ln = struct.pack("<H", len(pt))
             ct = self.acc_keys[epoch].encrypt(nonce_bytes(i), pt, ln)
             TRACE.frames[ct] = (epoch, "a", i)
@@ -681,6 +703,10 @@ class IpRun:
             i = self.srv if k == "N" else (a if k == "R" else self.srv + a)
             self.srv = max(self.srv, i + 1)
             return self.frame(self.acc_epoch, i, ahead)
+        if k == "NB":
+            i = self.srv
+            self.srv = i + 1
+            return self.frame(self.acc_epoch, i, ahead, bad=a)
         if k == "C":
             f = bytearray(self.frame(self.acc_epoch, self.srv, ahead))
             self.srv += 1
@@ -710,7 +736,7 @@ class IpRun:
             self.loop.run_forever()
             if not t.done():
                 t.cancel()
-        elif k in ("N", "R", "F", "C", "O"):
+        elif k in ("N", "NB", "R", "F", "C", "O"):
             f = self.wire_frame(ev)
             if f is not None:
                 self.tr.deliver(f)
@@ -1469,7 +1495,7 @@ def random_histories(transport, r, count, maxlen):
                 if transport == "ip":
                     h += [f"S{r.choice([1, 1, 1024, 1025, 2049, 0])}.0", "N"]
                     if r.random() < 0.3:
-                        parts = [r.choice(["N", "N", "N", "R0", "R1", "F1", "C", "O0"]) for _ in range(r.choice([1, 2, 2, 3]))]
+                        parts = [r.choice(["N", "N", "N", "R0", "R1", "F1", "C", "O0", "NB1"]) for _ in range(r.choice([1, 2, 2, 3]))]
                         h.append("+".join(parts) + r.choice(["", "@1", "@2", "@3", "@10", "@17", "@-1", "@-16", "@-17"]))
                 elif transport == "ble":
                     c = r.choice([0, 1])
@@ -1485,7 +1511,7 @@ def random_histories(transport, r, count, maxlen):
                 if transport == "coap":
                     kinds += ["SUB", "UNS", "SUB+N", "UNS+N", "N4", "RR"]
                 if transport == "ip":
-                    kinds += ["RR", "SX"]
+                    kinds += ["RR", "SX", "NB0", "NB1", "NB2"]
                 if transport == "coap":
                     kinds += ["EPC", "EPC"]
                 k = r.choice(kinds)
@@ -1532,6 +1558,7 @@ DIRECTED = {
         ["S1.0", "N@2", "RC", "S1.0", "N+O0@10", "N"],
         # real session establishment: an attacker replays the recorded pair-verify on the next connection
         ["S1.0", "N", "RR", "S1.0", "R0", "N", "RR", "S1.0", "O0"],
+        ["S1.0", "N", "NB1", "R1", "R0", "N", "S1.0"], ["S1.0", "S1.0", "N", "NB0", "R1", "RC", "NB2", "R0", "N"], ["N+NB1+N@-1", "R1"],
         ["S1.0", "SX65536.0", "S1.0", "N", "RC", "SX70000.0", "S2049.0", "N"], ["SX1.0", "S1.0", "RC", "S1.0", "SX1025.0"],
     ],
     "ble": [
@@ -1559,7 +1586,7 @@ XCHECK_RUN = {"ip": "i_log (ip_run ip_init", "ble": "b_log (ble_run ble_init", "
 
 def coq_event(t):
     """One token of a driver request as a Gallina [ev] (same grammar as ocaml/drv_c06.ml ev_of_tok)."""
-    simple = {"N": "Next", "N4": "Next404", "C": "Corrupt", "X": "Cancel", "T": "Timeout", "D": "Disconnect", "RC": "Reconnect",
+    simple = {"N": "Next", "N4": "Next404", "NB": "NextBad", "C": "Corrupt", "X": "Cancel", "T": "Timeout", "D": "Disconnect", "RC": "Reconnect",
               "RD": "Reconnect", "EN": "ENext", "EC": "ECorrupt"}
     if t in simple:
         return simple[t]
@@ -1751,6 +1778,7 @@ def run(ctx):
             hists += list(exhaustive(SESS[transport], full_depth))
         if transport == "ip":
             hists += list(exhaustive(IP_BIG, 3))
+            hists += list(exhaustive(IP_BAD, full_depth))
         if transport == "ble":
             hists += list(exhaustive(fault_alpha, 4))
         n_core = len(hists) - n_full
